@@ -19,6 +19,7 @@ pub mod gen03;
 pub mod gen04;
 pub mod gen05;
 pub mod pmodel;
+pub mod fmodel;
 pub mod gen06;
 pub mod gen17;
 
